@@ -465,21 +465,35 @@ CLAIMS = {
     text="Lean theorems over Sem (Model/Sem.lean) and Model/Alpha.lean about exactly the two things in which the Core handed to mono/lift/anf/go differs "
          "between the two ways of compiling a project - the order in which the packages' functions are concatenated (discovery order vs topological order) "
          "and the numbering of compile_match's temporaries (one Gensym for the program vs one per package): run_perm_invariant (if function names are pairwise "
-         "distinct, Sem.run is invariant under every permutation of the function list), run_alpha_invariant_partial (renaming every function by its own renaming "
-         "does not change Sem.run when the renaming is injective on the function's names and every moved variable is let-bound inside the body; partial: closure-free "
-         "Core), separate_eq_whole_validated (a decidable validator on two Core programs - every function has a renamed twin, no extra function, dyn tables answer "
+         "distinct, Sem.run is invariant under every permutation of the function list), run_alpha_invariant (renaming every function by its own renaming "
+         "does not change Sem.run - stdout, way of ending, extern events are EQUAL - when the renaming is injective on the function's names, every moved variable is "
+         "let-bound inside the body and no closure parameter is moved; closures included: closure expressions, closure values in environments, in the Ref store, in "
+         "data, returned / passed / called through locals, spawned by go, behind dyn - the proof relates the values of the two runs by Alpha.VRel (closures whose "
+         "bodies are renamings of each other under name-wise renamed, value-wise related environments; stores related cell by cell) and shows every builtin maps "
+         "related arguments to related results; run_alpha_invariant_partial, the round-1 closure-free statement, is now a corollary), separate_eq_whole_validated "
+         "(a decidable validator on two Core programs - every function has a renamed twin, closure expressions included, no extra function, dyn tables answer "
          "alike, hypotheses of the renaming theorem - is sound: it accepts only programs that run alike), check_build_same_interface (in the C15 model of the "
-         "artefact protocol check and build accept together, write the same .interface, and the interface inside the .core is that file). Tie: on every run the "
+         "artefact protocol check and build accept together, write the same .interface, and the interface inside the .core is that file), and about the link "
+         "environment both ways build with PackageExports::apply_to (Model/Exports.lean): link_env_order_irrelevant (if every export map has distinct keys and no two "
+         "packages export the same key of the same map differently, the environments built over any two orders of the packages answer every lookup in every map "
+         "alike - the two ways use two different topological sorts), indexmap_rebuilt_from_entries (inserting the entries of a map with distinct keys into an empty "
+         "map yields the map: what reading a map back from the interface JSON does), apply_to_copies_every_map (decide on tables regenerated from env.rs / "
+         "artifact.rs: every IndexMap of TypeEnv/TraitEnv/ValueEnv has its loop in apply_to, those structs have no other field, PackageExports has the parts of "
+         "GlobalTypeEnv and to_genv clones each into the part of the same name). Tie: on every run the "
          "validator is evaluated by gomlmodel on the real linked Core and the real whole-program Core of every accepted project with the per-function shift of "
-         "temporaries as renaming; outside the closure-free fragment an unverified structural comparison (renamed function = function) is used instead. "
+         "temporaries as renaming (quick tier 151/151, thorough tier 464/464 pairs inside the verified fragment, 31 resp. 186 of them with closure expressions; a pair "
+         "the validator rejects but the unverified structural comparison accepts is counted by reason in the evidence - none today); Exports.applyAll is evaluated on "
+         "the real exports (re-read from JSON) of every accepted project and compared lookup by lookup with the real GlobalTypeEnv of the separate link and of the "
+         "whole-program compile, together with both hypotheses of link_env_order_irrelevant. "
          "Model-free oracle on the real pipeline: the 8 corpus package projects and generated multi-package projects (all DAG shapes on <= 5 packages, cross-package "
          "traits, impls, generic functions with bounds, generic enums/structs instantiated across packages, closures, multi-file packages, ill-typed variants) are "
          "compiled whole and separately in every topological order (sampled in the quick tier) with .interface/.core written to and re-read from JSON files; "
          "acceptance must agree (same stage when rejected), Go.Sem of both Go ASTs and Sem of both Cores must give the same outcome, Go.Check must agree, and "
-         "check_package / build_package must serialise the same interface bytes.",
-    design_ref="§5 C14, 'C14 — as built'",
-    note="For programs with closures (about three quarters of the generated projects) equality of behaviour is observed under Sem/Go.Sem, not proved: a closure value "
-         "carries its body and environment, so the renaming theorem needs a relation on values instead of equality. The stages after Core (mono, lift, anf, go) are "
+         "check_package / build_package must serialise the same interface bytes; the exports of every built package read back from the .interface JSON text must "
+         "be what was written (Debug rendering of exports / to_genv() / hir_interface, compact JSON, recomputed hash).",
+    design_ref="§5 C14, 'C14 — as built', 'C14 closures and link environment — as built (round 10)'",
+    note="The JSON codec of the exports' entries themselves (serde derive on EnumDef, Ty, FnScheme, ...) is validated by the round-trip oracle, not modelled; keys and "
+         "values of the link environment are compared by their Debug rendering (values by a 64-bit hash of it). The stages after Core (mono, lift, anf, go) are "
          "the same code in both ways and are covered by the behavioural oracle only. Trusted: Lean kernel; Sem/Go.Sem/Go.Check; the Core/Go dumps and their decoders; "
          "the project generator. No defect found on the tree.",
     technique="Lean 4 proof (induction on fuel over the mutual interpreter; verified validator) + differential correspondence of the real Core + behavioural oracle over all topological orders"),
